@@ -104,8 +104,9 @@ def install(cfg):
         ctx = interp.ctx
         goal = as_bool_term(interp, cond)
         ctx.checks.append((label, simp(goal), list(ctx.pc), dict(ctx.inputs)))
-        ctx.on_check(label, simp(goal))
-        ctx.add(goal)
+        status = ctx.on_check(label, simp(goal))
+        if status == "proved":
+            ctx.add(goal)       # a discharged obligation may be used by later ones on this path
         return None
 
     @cfg.stub(api.cover)
